@@ -3,6 +3,7 @@ Driver operations for the sync models (C06, C07). Core Lean only.
 `handle st words` returns `none` when the first word is not one of this module's operations.
 
   sync|xsync init <cpoff 0|1> <now> <h:hash,…|-> <forbidden,…|->     configuration
+  sync hangup <peer>                                                   the remote closed the socket: the peer object is disconnected
   sync|xsync def <hex80>                                              appends a header to the table (index = order)
   sync|xsync preload <idx…>                                           headers added to the store before the engine exists
   sync new                                                            p2psync.New on the current store
@@ -146,6 +147,13 @@ def handle (s : S) : List String → Option (S × String)
     match s.st, p.toNat?, invItems s idxs with
     | some st, some p, some items => some (runEvent s st choice (.inv p items))
     | _, _, _ => some (s, "bad-args")
+  | ["sync", "hangup", p] =>
+    -- the remote end closed the socket: peer.go's inHandler calls Disconnect() on the peer object (nothing is sent,
+    -- the manager learns of it with the done message)
+    match s.st, p.toNat? with
+    | some st, some p =>
+      some ({ s with st := some { st with peers := st.peers.map fun q => if q.id == p then { q with disc := true } else q } }, "")
+    | _, _ => some (s, "bad-args")
   | ["sync", "done", choice, p] =>
     match s.st, p.toNat? with
     | some st, some p => some (runEvent s st choice (.donePeer p))
